@@ -16,6 +16,12 @@
 (*              than what was sent) but at least 8: as `bad`; after a skip    *)
 (*              (or a delivery of exactly the declared bytes) the stream is   *)
 (*              out of step and nothing more is promised for THIS connection  *)
+(*   short      declared length >= 8 but smaller than the fixed part of the message's  *)
+(*              type: cannot be decoded from its own bytes at all - as `badlen`     *)
+(*              except that it must never be delivered (that would be a message   *)
+(*              built from bytes of two messages)                                 *)
+(*   raises     well-formed, delivered, but its handler fails: as ok; the failure   *)
+(*              stays inside this one message                                      *)
 (*   nolen      declared length < 8: cannot be skipped, the connection must   *)
 (*              be closed                                                     *)
 (*   partial    a message cut short by end of stream: held, then closed       *)
@@ -26,7 +32,8 @@
 EXTENDS Naturals, Sequences, FiniteSets, TLC
 
 CONSTANTS Conns, Streams    \* Streams: set of functions [Conns -> Seq(class)]
-Classes == {"ok", "tolerable", "bad", "badlen", "nolen", "partial"}
+Classes == {"ok", "raises", "tolerable", "bad", "badlen", "short", "nolen", "partial"}
+Good == {"ok", "raises"}
 
 VARIABLES stream,      \* [Conns -> Seq(class)]
           fed,         \* [Conns -> number of messages handed to the loop]
@@ -61,16 +68,16 @@ Eof(c) ==
 
 \* decoder outcomes for the next unresolved message of c
 Deliver(c) ==
-  /\ open[c] /\ sync[c] /\ Pending(c) /\ Cls(c) \in {"ok", "tolerable", "badlen"}
+  /\ open[c] /\ sync[c] /\ Pending(c) /\ Cls(c) \in {"ok", "raises", "tolerable", "badlen"}
   /\ delivered' = [delivered EXCEPT ![c] = Append(@, nxt[c])]
   /\ nxt' = [nxt EXCEPT ![c] = @ + 1]
   /\ sync' = [sync EXCEPT ![c] = Cls(c) # "badlen"]    \* exactly the declared bytes: now out of step
   /\ UNCHANGED <<stream, fed, open, eof, errors, alive>>
 SkipWithError(c) ==
-  /\ open[c] /\ sync[c] /\ Pending(c) /\ Cls(c) \in {"tolerable", "bad", "badlen"}
+  /\ open[c] /\ sync[c] /\ Pending(c) /\ Cls(c) \in {"tolerable", "bad", "badlen", "short"}
   /\ errors' = [errors EXCEPT ![c] = @ + 1]
   /\ nxt' = [nxt EXCEPT ![c] = @ + 1]
-  /\ sync' = [sync EXCEPT ![c] = Cls(c) # "badlen"]
+  /\ sync' = [sync EXCEPT ![c] = Cls(c) \notin {"badlen", "short"}]
   /\ UNCHANGED <<stream, fed, open, eof, delivered, alive>>
 SkipQuietly(c) ==      \* only where no error reply is defined: a well-formed message nobody handles
   /\ open[c] /\ sync[c] /\ Pending(c) /\ Cls(c) = "tolerable"
@@ -78,7 +85,7 @@ SkipQuietly(c) ==      \* only where no error reply is defined: a well-formed me
   /\ UNCHANGED <<stream, fed, open, sync, eof, delivered, errors, alive>>
 Close(c) ==
   /\ open[c]
-  /\ \/ (Pending(c) /\ Cls(c) # "ok")           \* a message that cannot be processed
+  /\ \/ (Pending(c) /\ Cls(c) \notin Good)       \* a message that cannot be processed
      \/ ~sync[c]                                \* or the stream is already out of step
      \/ eof[c]                                  \* or the peer is gone
   /\ open' = [open EXCEPT ![c] = FALSE]
@@ -100,16 +107,19 @@ Spec == Init /\ [][Next]_vars
 LoopAlive == alive
 \* a connection that only ever carried ok messages is never closed before its peer finishes,
 \* and receives exactly its messages in order
-OkPrefix(c) == \A i \in 1..fed[c] : stream[c][i] = "ok"
+OkPrefix(c) == \A i \in 1..fed[c] : stream[c][i] \in Good
 CleanUntouched == \A c \in Conns : (OkPrefix(c) /\ ~eof[c]) => open[c] /\ sync[c] /\ errors[c] = 0
 InOrder == \A c \in Conns : sync[c] =>
              \A i \in 1..Len(delivered[c]) : \A j \in 1..Len(delivered[c]) :
                  i < j => delivered[c][i] < delivered[c][j]
 NoOkSkipped == \A c \in Conns : \A i \in 1..(nxt[c] - 1) :
-                 (stream[c][i] = "ok" /\ (\A j \in 1..i : stream[c][j] \in {"ok", "tolerable", "bad"}))
+                 (stream[c][i] \in Good /\ (\A j \in 1..i : stream[c][j] \in {"ok", "raises", "tolerable", "bad"}))
                     => \E k \in 1..Len(delivered[c]) : delivered[c][k] = i
 \* a message whose length cannot be trusted at all is never skipped over
 NoLenNeverSkipped == \A c \in Conns : \A i \in 1..(nxt[c] - 1) : stream[c][i] # "nolen"
+\* a message that cannot be decoded from its own bytes is never delivered
+NeverMixed == \A c \in Conns : sync[c] => \A k \in 1..Len(delivered[c]) :
+                 delivered[c][k] = 0 \/ stream[c][delivered[c][k]] \notin {"bad", "short", "nolen", "partial"}
 \* what must hold when the loop has nothing left to do (checked at the end of recorded traces)
 Settled(c) == \/ ~open[c]
               \/ ~sync[c]
